@@ -454,9 +454,9 @@ func runParent(ck *Check, tier string, seed uint64, only string) int {
 		wd = ck.WatchdogThorough
 	}
 	if wd == 0 {
-		wd = 20 * time.Minute
+		wd = 6 * time.Minute
 		if tier == "thorough" {
-			wd = 120 * time.Minute
+			wd = 90 * time.Minute
 		}
 	}
 
@@ -536,6 +536,13 @@ func runParent(ck *Check, tier string, seed uint64, only string) int {
 		}(k)
 	}
 	wg.Wait()
+	if only != "" {
+		for k := 0; k < n; k++ {
+			if b, err := os.ReadFile(filepath.Join(tmp, fmt.Sprintf("w%d.stderr", k))); err == nil && len(b) > 0 {
+				os.Stderr.Write(b)
+			}
+		}
+	}
 
 	// merge
 	merged := Result{Counters: map[string]int64{}}
